@@ -267,6 +267,32 @@ def run(prog: Program) -> Results:
                     f"_primitive_cls_from_value, NixList.rebuild.<render_item>, ...)")
     from sa.rules.c01 import no_greedy_strip
     no_greedy_strip(prog, res, "R-C13-6")
+    # ---------------------------------------------------------------- R-C13-8 `nested` is parser/CLI state
+    r8 = res.rule("R-C13-8", "the `nested` (attrpath-derived) flag is decided by syntax, never by the shape of a Python value: it is "
+                  "set only where an attrpath is parsed (Binding.from_cst) or created by the CLI (_set_attrpath_value); no "
+                  "construction/coercion path sets it — a nested binding with nothing below it renders as nothing", floor=2)
+    WRITERS_OK = {"Binding.from_cst", "_set_attrpath_value"}
+    for f in prog.all_functions():
+        top = f
+        while top.parent is not None:
+            top = top.parent
+        for n in walk_no_nested(f.node):
+            site = None
+            if isinstance(n, ast.Assign) and any(isinstance(t, ast.Attribute) and t.attr == "nested" for t in n.targets) and not is_const(n.value, False):
+                site = n
+            elif isinstance(n, ast.Call) and callee(n) in ("Binding", "cls") and any(k.arg == "nested" and not is_const(k.value, False) for k in n.keywords) \
+                    and (callee(n) == "Binding" or top.cls == "Binding"):
+                site = n
+            if site is None:
+                continue
+            r8.instances += 1
+            ok = top.key in WRITERS_OK
+            r8.ob(ok, {"site": top.key, "write": norm(site)[:60]})
+            if not ok:
+                res.add("R-C13-8", (top.key, "nested flag set outside the parser/CLI"), f.loc(site),
+                        f"{top.key}: `{norm(site)[:60]}` marks a binding as attrpath-derived from the shape of a Python value: the set "
+                        f"renderer flattens such bindings into their leaves, so a value with no leaves (an empty dict) is rendered as "
+                        f"nothing and the binding disappears")
     from sa.rules.c12 import one_bare_name_language
     one_bare_name_language(prog, res, "R-C13-7")
     res.assumptions = ["Nix float grammar: a float literal needs a dot; list elements admit only select-level expressions"]
